@@ -293,6 +293,7 @@ class DilCase:
         for i in range(2):
             if P["dilate_at"][i] == "tape" and P["dilation"][i]:
                 intents.insert(0, ["dilate", i])
+        self.remaining_intents = intents
         kills_left = P["kills"]
         while not tape.exhausted() and self.step < P["max_steps"]:
             self.step += 1
@@ -304,13 +305,14 @@ class DilCase:
                 if nt is not None and nt - W.clock.seconds() <= P.get("max_tick", 35.0):
                     choices.append((P["w_progress"], ("tick", nt)))
             seen_kinds = set()
+            intents = self.remaining_intents
             for it in intents:
                 # keep per-(kind,target) issue order: only the first enabled intent of each target
                 tag = (it[0], json.dumps(it[1], default=str))
                 if tag in seen_kinds:
                     continue
                 if self._intent_enabled(it):
-                    choices.append((P["w_app"], ("app", it)))
+                    choices.append((P.get("w_close", 1) if it[0] == "wclose" else P["w_app"], ("app", it)))
                     seen_kinds.add(tag)
                 elif it[0] in ("write", "sclose"):
                     seen_kinds.add(tag)     # later ops on this subchannel end wait for earlier ones
@@ -329,7 +331,7 @@ class DilCase:
             e = tape.weighted(choices)
             try:
                 if e[0] == "app":
-                    intents.remove(e[1])
+                    self.remaining_intents.remove(e[1])
                     self._do_intent(e[1])
                 elif e[0] == "kill":
                     kills_left -= 1
@@ -344,7 +346,6 @@ class DilCase:
                 self.escaped.append((str(e[0]), ex, failure.Failure()))
             if after_step is not None:
                 after_step(self)
-        self.remaining_intents = intents
 
     def do_kill(self, l):
         self.kills += 1
@@ -356,10 +357,20 @@ class DilCase:
             except Exception:
                 depth.append(None)
         inflight = [len(l.a.outq), len(l.b.outq)]
-        self.kill_info.append(dict(step=self.step, unacked=depth, inflight=inflight))
-        l.break_()
+        mode = self.P.get("kill_notify", "both")
+        if mode == "tape":
+            mode = self.tape.choice(["both", "both", "leader", "follower"])
+        self.kill_info.append(dict(step=self.step, unacked=depth, inflight=inflight, notify=mode))
+        li = self.leader_index()
+        if mode == "both" or li is None:
+            l.break_()
+        else:
+            # a half-dead link: only one side's TCP stack reports the loss
+            who = self.ws[li if mode == "leader" else 1 - li]._sim_node
+            ends = tuple(t for t in (l.a, l.b) if t.owner is who)
+            l.break_(notify=ends if ends else None)
 
-    def flush_intents(self, skip=("wclose",)):
+    def flush_intents(self, skip=("wclose",), after_step=None):
         """issue remaining intents in order (stabilisation), settling in between"""
         progress = True
         while progress:
@@ -373,7 +384,7 @@ class DilCase:
                     self._do_intent(it)
                     progress = True
                     break
-            self.settles.append(self.settle())
+            self.settles.append(self.settle(after_step=after_step))
 
     def settle(self, max_time=None, max_steps=None, after_step=None):
         W = self.W
